@@ -35,6 +35,9 @@ impl MultiYamlConverter {
 
     pub fn convert_list(&self, vals: &Vec<Rc<Val>>, mut w: &mut dyn Write) -> ConvertResult {
         for val in vals {
+            // Every document starts with a document marker. Without it
+            // consecutive documents run together into one (or into invalid) YAML.
+            writeln!(w, "---")?;
             self.0.write(val.as_ref(), &mut w)?;
         }
         Ok(())
